@@ -4,7 +4,7 @@ CONSTANTS
 MaxFields = 3
 HotKinds = {"bool", "int", "uint8", "float", "string", "*int", "*S", "[]int", "[]uint8", "[]S", "[]*S", "[2]int", "map[string]int", "map[string]string", "map[string]*S", "any", "S", "anon", "time", "E1", "*E1", "E2", "T1", "T2", "*T2", "U", "V", "W", "Tagged", "Unexp", "Emb", "EmbPtr", "Simp", "PSimp", "Gen", "JM", "PJM", "TM", "MyInt"}
 HotTags = {"", "nm", "oe", "nmoe", "str", "dash", "dashc"}
-NbrSet = "thorough"
+NbrSet = "quick"
 EmbKinds = {"E1", "*E1", "E2"}
 TwoVariant = {"bool", "int", "uint8", "float", "string", "[2]int", "time", "MyInt", "Simp", "PSimp", "Gen", "JM", "PJM", "TM"}
 CONSTRAINT Emit
